@@ -25,6 +25,9 @@ pub enum NotifyMode {
     Dup,
     /// a stale height is announced instead
     Stale(u32),
+    /// a notification the plugin cannot decode (old shape, missing or
+    /// out-of-range height): it must be survived
+    Malformed(u8),
 }
 
 #[derive(Clone, Debug, PartialEq, Serialize, Deserialize)]
